@@ -248,7 +248,7 @@ def compute_df_concat_with_tf_name(lk) -> str:
 
 def coq_cinit(w: CWorld, fixes: dict) -> str:
     others = coq_list([f"({coq_string(n)}, 0)" for n in sorted(w.user_names - {w.table})], "(string * nat)")
-    fx = (f"{{| fx77 := {coq_bool(fixes['fx77'])}; fx716 := {coq_bool(fixes['fx716'])}; fx715 := {coq_bool(fixes['fx715'])}; fx718 := {coq_bool(fixes.get('fx718', False))}; fxba := {coq_bool(fixes.get('fxba', False))} |}}")
+    fx = (f"{{| fx77 := {coq_bool(fixes['fx77'])}; fx716 := {coq_bool(fixes['fx716'])}; fx715 := {coq_bool(fixes['fx715'])}; fx718 := {coq_bool(fixes.get('fx718', False))}; fxba := {coq_bool(fixes.get('fxba', False))}; fxco := {coq_bool(fixes.get('fxco', False))} |}}")
     return (f"(cinit K [{coq_string(w.table)}] 0 {others} {coq_list([coq_string(c) for c in w.tfcols], 'string')} "
             f"{coq_nat(w.params)} 5 6 {fx})")
 
@@ -541,7 +541,7 @@ def witness_stage(ctx: Ctx, fixes: dict):
 
 def coq_cinit_static(fixes: dict) -> str:
     others = coq_list([f"({coq_string(n)}, 0)" for n in sorted(USER_TABLES + USER_VIEWS)], "(string * nat)")
-    fx = (f"{{| fx77 := {coq_bool(fixes['fx77'])}; fx716 := {coq_bool(fixes['fx716'])}; fx715 := {coq_bool(fixes['fx715'])}; fx718 := {coq_bool(fixes.get('fx718', False))}; fxba := {coq_bool(fixes.get('fxba', False))} |}}")
+    fx = (f"{{| fx77 := {coq_bool(fixes['fx77'])}; fx716 := {coq_bool(fixes['fx716'])}; fx715 := {coq_bool(fixes['fx715'])}; fx718 := {coq_bool(fixes.get('fx718', False))}; fxba := {coq_bool(fixes.get('fxba', False))}; fxco := {coq_bool(fixes.get('fxco', False))} |}}")
     return f'(cinit K ["inp"] 0 {others} ["first_name"; "surname"] 0 5 6 {fx})'
 
 
